@@ -119,6 +119,26 @@ def lookahead_chains():
     return out
 
 
+def split_siblings():
+    """LR(1) but not LALR(1) kernels whose merge is refused, so that two sibling states with the same kernel exist; the
+    siblings hold items with the dot before a non-terminal, and the context look-ahead reaches both of them late and in
+    the same propagation round (x T p | y T q with T -> a E | a F d | b F | b E d, E -> e | e G, F -> e | e H).
+    Several orders of the alternatives; used by the table check only (ten terminals)."""
+    import itertools
+    t_alts = [("a", "E"), ("a", "F", "d"), ("b", "F"), ("b", "E", "d")]
+    out = []
+    for s_order in ((("x", "T", "p"), ("y", "T", "q")), (("y", "T", "q"), ("x", "T", "p"))):
+        for perm in list(itertools.permutations(t_alts))[::5]:
+            for tail in ((("G", ("g",)), ("H", ("h",))), (("G", ("g", "G")), ("G", ("g",)), ("H", ("h",)))):
+                g = [("S", s_order[0]), ("S", s_order[1])] + [("T", a) for a in perm] + \
+                    [("E", ("e",)), ("E", ("e", "G")), ("F", ("e",)), ("F", ("e", "H"))] + list(tail)
+                g = tuple((l, tuple(r)) for l, r in g)
+                terms = sorted({x for _, r in g for x in r if x.islower()})
+                assert CFG(g, {t: lit(t) for t in terms}).is_reduced()
+                out.append(g)
+    return out
+
+
 # ---- rule-order dimension ----------------------------------------------------------------------------
 # Fixpoint computations over the grammar (FIRST, FOLLOW, look-ahead propagation) iterate over rules in
 # declaration order; the exhaustive Gamma scopes fix that order, so a family of four-nonterminal
